@@ -105,6 +105,30 @@ ProbeWithoutAllH ==
 
 QueriesHAll == QueriesH \cup ProbeSameKeyH \cup ProbeWithoutAllH
 
+(* ---------------------------------------------------------------- family L: long series (universe H)
+   Few series with MANY samples each, so that a layout history splits one series into parts of very
+   different sizes (6+6, 4+8, 5+5+2, ...) over blocks, segments and process lives.  The joined series
+   must come back sample by sample: raw selectors as well as every aggregation operator. *)
+ScenL == {S \in SUBSET (1 .. 12) : /\ Cardinality(S) \in {2, 3}
+                                   /\ Cardinality(S \cap (1 .. 6)) >= 1
+                                   /\ Cardinality(S \cap (7 .. 12)) >= 1}
+ScenLSmall == {{1, 7}, {2, 5, 9}}
+ScenLOne == {{1, 7}}
+ScenAbstractL == {{1, 2}, {1, 2, 3}}
+QueriesL ==
+  {QVec(Plain(s)) : s \in {Sel("m", <<>>), Sel("n", <<>>), Sel("m", <<M("a", "=~", Alt(<<"x", "y">>))>>), Sel("m", <<M("b", "!=", Lit("q"))>>),
+                            Sel("n", <<M("a", "!~", Lit("zz"))>>), Sel("m", <<M("a", "=~", Pre("x")), M("b", "=", Lit("p"))>>)}}
+  \cup {QVec(Opnd(op, g, s)) : op \in AggOps, g \in {NoG, G("by", <<"a">>), G("without", <<"a">>)}, s \in {Sel("m", <<>>), Sel("n", <<>>)}}
+  \cup {QBin("+", DefVM, Plain(Sel("m", <<>>)), Plain(Sel("n", <<>>))),
+        QBin("/", VM("on", <<"a", "b">>, "one"), Plain(Sel("m", <<>>)), Plain(Sel("n", <<>>))),
+        QBin("-", DefVM, SumBy("b", "m"), SumBy("b", "n")),
+        QBin("*", DefVM, Opnd("sum", NoG, Sel("m", <<>>)), Opnd("max", NoG, Sel("n", <<>>))),
+        QSc("*", Plain(Sel("m", <<>>)), 2, FALSE), QSc("-", SumBy("a", "n"), 3, TRUE)}
+QueriesLMC ==
+  {QVec(Plain(Sel("m", <<>>))), QVec(Plain(Sel("n", <<M("a", "!~", Lit("zz"))>>))),
+   QVec(Opnd("sum", NoG, Sel("m", <<>>))), QVec(Opnd("avg", G("by", <<"a">>), Sel("m", <<>>))),
+   QBin("+", DefVM, Plain(Sel("m", <<>>)), Plain(Sel("n", <<>>)))}
+
 (* ---------------------------------------------------------------- universe X (missing labels) *)
 UX == << Ser("m", [a |-> "x", b |-> "p"]), Ser("m", [a |-> "x"]), Ser("m", [a |-> "y", b |-> "q"]),
          Ser("m", [a |-> "y", b |-> "p", c |-> "x"]), Ser("m", [a |-> "y"]),
